@@ -79,7 +79,9 @@ DoFit(b) ==
     /\ B' = [a \in RangeS(arms) |-> AddRows(<<LamI, ZeroV>>, b, a, 1)[2]]
     /\ status' = [a \in RangeS(arms) |-> [tr |-> a \in BatchLabels(b), wm |-> FALSE, by |-> "none"]]
 
-Fit(b) == /\ "fit" \in Ops /\ DoFit(b) /\ last' = [op |-> "fit", batch |-> b]
+Fit(b) == /\ "fit" \in Ops
+          /\ (Scaled => ~fitted)          \* scale=True is specified for a single fit only
+          /\ DoFit(b) /\ last' = [op |-> "fit", batch |-> b]
 
 PartialFit(b) ==
     /\ "partial_fit" \in Ops
